@@ -7,7 +7,7 @@ import json, os, collections
 M = '/verif/mutation'
 stats = json.load(open(M + '/stats.json'))
 rows = {}
-for fn in ('pass1.tsv', 'pass2.tsv'):
+for fn in ('pass1.tsv', 'pass2.tsv', 'pass3.tsv', 'pass4.tsv'):
     p = os.path.join(M, fn)
     if not os.path.exists(p):
         continue
